@@ -42,7 +42,7 @@ fn leaf_image(prefix: &[u8], key: &[u8], value: &[u8]) -> Vec<u8> {
     img
 }
 
-fn std_leaf_op(prefix: Vec<u8>) -> LeafOp {
+pub fn std_leaf_op(prefix: Vec<u8>) -> LeafOp {
     LeafOp {
         hash: HashOp::Sha256.into(),
         prehash_key: HashOp::NoHash.into(),
